@@ -14,6 +14,11 @@ from ..topo import Topo, REF
 from .c11 import lib_roots
 
 ID = 'C04'
+# sub-checks added after the seeded-change waves (DESIGN.md sections 5 and 6)
+EXTENSIONS = [
+    'reference-cell pass (each DOF location on its entity), wrapper count rules, composites with unequal counts, explicit-dim vector elements',
+    'periodic meshes (topological sharing model), curved second-order twin with an explicit affine mapping, Dofs(offset=), location-table shape',
+]
 LEVEL = 'model_checking'
 TECHNIQUE = "explicit-state BFS over mesh numberings x full element catalogue; invariant vs numbering-free sharing model"
 LEVEL_TEXT = ("Every state of MeshSpace (seeds of all cell types, library-made variants, all raw renumbering / cell-order / "
